@@ -111,7 +111,7 @@ def main(tier, seed):
     rep.obligation("recovery of %d crash images issues no truncate / rename / positional write / open-for-write" % len(items), not forb)
     rep.obligation("correspondence traces: model = recorded implementation on every operation", ndis == 0)
     rep.obligation("monitor accepts every recorded trace", nrej == 0)
-    rep.failing.sort(key=lambda f: len(f["case"]["ops"]))
+    rep.failing.sort(key=lambda f: len(f["case"]["ops"]) if "case" in f else 0)
     rep.coverage.update({
         "checker_cmd": "make -C coq Props/C14.vo (coqc 8.16.1) ; bin/check C14",
         "trusted_base": TRUSTED,
